@@ -163,11 +163,13 @@ def accept(kind: str, P: int, seplen: int, limit: int, cuts: int, path: str, pre
         assert P + 2 * len(sep) + 1 <= limit
         lead = S.bytes(pre, "f") if pre >= 0 else None
         payload = S.bytes(P, "p")
-        S.assume(payload.find(sep) < 0)
+        # a valid packet for separator framing: the FIRST occurrence of the separator in payload+separator is the appended one
+        # (with a multi-byte separator a payload ending with a proper prefix of it, e.g. 00 ff before 00 ff 00, is not valid)
+        S.assume((payload + sep).find(sep) == P)
         stream = payload + sep
         nlead = 0
         if lead is not None:
-            S.assume(lead.find(sep) < 0)
+            S.assume((lead + sep).find(sep) == pre)
             stream = lead + sep + stream
             nlead = 1
         fr = L.ref_frames(stream, sep)
